@@ -30,6 +30,15 @@ Theorem C15_guarded : forall f ws, storable f = true -> writes_ok ws = true -> c
 Proof. exact create_write_reload_ok. Qed.
 Print Assumptions C15_guarded.
 
+(** Histories over several year files: create, then records of ANY years (each first record of a new year
+    creates that year's file from a deep copy of the bucket's TimeBucketInfo) at indices >= 1, then a
+    restart: the LATEST year file — the one the catalog reports — holds the created schema (under its own
+    year), for every storable TimeBucketInfo and every such history. *)
+Theorem C15_multi_year : forall f ws, storable f = true -> years_ok ws = true ->
+  exists y, reload_history f ws = Ok (set_year f y).
+Proof. exact reload_history_ok. Qed.
+Print Assumptions C15_multi_year.
+
 (** Every schema accepted by the guard [creatable] (what NewTimeBucketInfo is given) yields a storable
     TimeBucketInfo. *)
 Theorem C15_creatable_storable : forall tf descr year dsv rt,
